@@ -8,14 +8,26 @@ import QV.Model.Circuit
 `qcircuit/qcircuitenhanced.py` (`map_qubit`, `get_free_ancilla`, `mark_ancilla`, `uncompute`,
 `remove_identities`, `uncompute_all`), written as total functions in a state+exception monad.
 
-Two things the Python code leaves to CPython are *inputs* of the model:
+The model follows the compiler with the repairs `docs/fixes/CC-*.diff` (every named qubit is
+promoted; `compile_not` negates in place only an ancilla computed by that very call; a symbol that
+is rebound evicts the cached expressions that mention it; `compile_or` with more than two distinct
+argument qubits folds binary ors into new ancillas; ancillas are released after a statement only
+when the statement's result is kept to the end, otherwise `keep_ancillas`).
+
+Two things the Python code leaves to CPython:
 * `free_ancilla_lst.pop()` pops an arbitrary element of a `set`: the popped qubits are logged
-  from the real run and passed as `choices`; the model checks each is admissible.
-* `list(set(erets))` iterates a set: control lists are sorted here and the harness sorts them
-  (and runs of adjacent CX with one target) on the code side before comparing.
+  from the real run and passed as `choices` (an *input* of the model); the model checks each is
+  admissible.
+* `list(set(erets))` iterates a set.  Where only the *set* matters (controls of one MCX, a run of
+  CX gates on one target) the model sorts and the harness sorts on the code side before
+  comparing.  The or-chain of `compile_or` depends on the order itself: `pySetOrder` reproduces
+  CPython's iteration order of a `set` built from a list of small non-negative ints (hash table
+  with linear probing and perturbation, `Objects/setobject.c`); the model checks that the result
+  is a permutation of the sorted list and raises a `model:` error otherwise.
 
 Hybrid `Q.*` gates (`QuantumBooleanGate`) are not modelled (`unsupported`).
-The model raises *events* at the sites of the listed compiler defects, used for attribution.
+The model raises *events* (`cacheHit`, `destAmongArgs`, `inplaceNot`, `xorRepl`, `staleReplay`) as
+diagnostics at the sites where the unrepaired compiler went wrong.
 -/
 namespace QV.Compiler
 open QV
@@ -29,6 +41,8 @@ structure QC where
   anc : List Nat := []
   free : List Nat := []
   marked : List Nat := []
+  /-- `kept_ancillas`: ancillas of statements whose result `uncompute_all` will undo; never marked again -/
+  kept : List Nat := []
   nextGid : Nat := 1
   /-- shadow bookkeeping for attribution only (no influence on the emitted gates): a version
   per qubit, bumped to a fresh number whenever the qubit is targeted -/
@@ -133,13 +147,16 @@ def getFreeAncilla : M Nat := do
       modQC fun qc => { qc with free := qc.free.erase c }
       pure c
 
-/-- `mark_ancilla` -/
+/-- `mark_ancilla`: `if w in self.ancilla_lst and w not in self.kept_ancillas` -/
 def markAncilla (w : Nat) : M Unit := do
   let qc ← getQC
-  if qc.anc.contains w then
-    -- a still-named temporary (`__x`, never promoted) is about to be uncomputed after this statement
-    if qc.qmap.any (fun p => p.2 == w && p.1.startsWith "__") then event "markNamedTemp"
+  if qc.anc.contains w && !qc.kept.contains w then
     modQC fun qc => { qc with marked := setIns qc.marked w }
+
+/-- `keep_ancillas`: `kept_ancillas |= ancilla_lst - free_ancilla_lst; marked_ancillas = set()` -/
+def keepAncillas : M Unit :=
+  modQC fun qc => { qc with kept := (qc.anc.filter (fun a => !qc.free.contains a)).foldl setIns qc.kept,
+                            marked := [] }
 
 def markAll : List Nat → M Unit
   | [] => pure ()
@@ -155,6 +172,10 @@ def expqSet (e : BExp) (q : Nat) : M Unit := do
   modify fun s =>
     if s.expq.any (·.1 == e) then { s with expq := s.expq.map (fun p => if p.1 == e then (e, q) else p) }
     else { s with expq := s.expq ++ [(e, q)] }
+
+/-- `ExpQMap.remove_symbol`: drop the keys that mention the symbol -/
+def expqRemoveSymbol (x : String) : M Unit :=
+  modify fun s => { s with expq := s.expq.filter (fun p => !p.1.syms.contains x) }
 
 def expqGet? (e : BExp) : M (Option Nat) := do
   return ((← get).expq.find? (·.1 == e)).map (·.2)
@@ -257,9 +278,88 @@ def cxAll (d : Nat) : List Nat → M Unit
   | [] => pure ()
   | i :: is => do cx i d; cxAll d is
 
-def xAll : List Nat → M Unit
+/-! ### `list(set(erets))` in CPython -/
+
+/-- probing of `set_add_entry` / `set_insert_clean`: from slot `i` look at `LINEAR_PROBES = 9` further
+slots when they fit below the mask, then jump by `i*5 + 1 + (perturb >>= 5)`.  Returns the slot and
+whether it already holds the key. -/
+def pySlot (tbl : Array (Option Nat)) (mask key : Nat) : Nat → Nat → Nat → Option (Nat × Bool)
+  | 0, _, _ => none
+  | fuel+1, i, perturb =>
+    let probes := if i + 9 ≤ mask then 9 else 0
+    match (List.range (probes + 1)).findSome? (fun j =>
+        match tbl[i + j]? with
+        | some none => some (i + j, false)
+        | some (some k) => if k == key then some (i + j, true) else none
+        | none => none) with
+    | some r => some r
+    | none =>
+      let p := perturb >>> 5
+      pySlot tbl mask key fuel ((i * 5 + 1 + p) % (mask + 1)) p
+
+def pyInsert (tbl : Array (Option Nat)) (mask key : Nat) : Option (Array (Option Nat) × Bool) :=
+  match pySlot tbl mask key (4 * (mask + 1) + 64) (key % (mask + 1)) key with
+  | some (_, true) => some (tbl, false)
+  | some (i, false) => some (tbl.set! i (some key), true)
+  | none => none
+
+/-- `newsize = PySet_MINSIZE; while (newsize <= minused) newsize <<= 1` -/
+def pyNewSize : Nat → Nat → Nat → Nat
+  | 0, sz, _ => sz
+  | fuel+1, sz, minused => if sz ≤ minused then pyNewSize fuel (sz * 2) minused else sz
+
+/-- one `set_add_key` (`hash(i) = i`): insert, then resize to `used * 4` when `fill * 5 ≥ mask * 3` -/
+def pySetAdd (st : Option (Array (Option Nat) × Nat × Nat)) (key : Nat) :
+    Option (Array (Option Nat) × Nat × Nat) :=
+  match st with
+  | none => none
+  | some (tbl, mask, fill) =>
+    match pyInsert tbl mask key with
+    | none => none
+    | some (tbl', added) =>
+      if !added then some (tbl', mask, fill)
+      else
+        let fill' := fill + 1
+        if fill' * 5 < mask * 3 then some (tbl', mask, fill')
+        else
+          let newsize := pyNewSize 64 8 (fill' * 4)
+          let nm := newsize - 1
+          let nt := tbl'.toList.foldl (fun (acc : Option (Array (Option Nat))) e =>
+            match acc, e with
+            | some t, some k => (pyInsert t nm k).map (·.1)
+            | a, _ => a) (some (Array.replicate newsize none))
+          nt.map (fun t => (t, nm, fill'))
+
+/-- `list(set(l))` for a list of small non-negative ints (CPython 3.12) -/
+def pySetOrder (l : List Nat) : List Nat :=
+  match l.foldl pySetAdd (some (Array.replicate 8 none, 7, 0)) with
+  | some (tbl, _, _) => tbl.toList.filterMap id
+  | none => []
+
+/-- the fold of binary ors of `compile_or` (more than two distinct argument qubits): every
+intermediate result goes to a new marked ancilla, the last one to `dest` -/
+def orChain (dest : Nat) : Nat → List Nat → M Unit
+  | _, [] => pure ()
+  | acc, [i] => do
+    cx acc dest
+    cx i dest
+    mcx [acc, i] dest
+  | acc, i :: rest => do
+    let d ← getFreeAncilla
+    markAncilla d
+    cx acc d
+    cx i d
+    mcx [acc, i] d
+    orChain dest d rest
+
+/-- step 4 of `compile_or` for more than two distinct argument qubits; `erets` is the argument
+list the set is built from, `es` its sorted duplicate-free form -/
+def orWide (dest : Nat) (erets es : List Nat) : M Unit := do
+  let o := pySetOrder erets
+  if sortNat o != es then throw "model: iteration order of set(erets) not reproduced"
+  match o with
   | [] => pure ()
-  | i :: is => do xGate i; xAll is
+  | a :: rest => orChain dest a rest
 
 def constFalse : M Nat := do
   if (dictGet? (← getQC).qmap "FALSE").isNone then discard <| addQubit "FALSE"
@@ -339,8 +439,10 @@ def compileExpr (e : BExp) (dest : Option Nat) (sym : Option String) : M Nat :=
           pure iret
         | none => throw "unreachable"
       else
+        -- `shared = expr.args[0] in self.expqmap`: already computed, someone else may read it
+        let shared := (← expqGet? a).isSome
         let eret ← compileExpr a none none
-        if dest.isNone && (← getQC).anc.contains eret then
+        if dest.isNone && (← getQC).anc.contains eret && !shared then
           event "inplaceNot"
           xGate eret
           expqSet (.not a) eret
@@ -378,10 +480,7 @@ def compileExpr (e : BExp) (dest : Option Nat) (sym : Option String) : M Nat :=
         cxAll d es
         if es.length == 2 then mcx es d
       else
-        xAll es
-        mcx es d
-        xAll es
-        xGate d
+        orWide d erets es
       markAll es
       if dest.isNone then expqSet (.or args) d
       pure d
@@ -418,17 +517,27 @@ def compileXorArgs : List BExp → Nat → M Nat
     compileXorArgs as d'
 end
 
+/-- `not uncompute or returns is None or sym.name in returns.bitvec`: the statement's result is
+kept to the end, its ancillas can be released right after the statement -/
+def inlineUncompute (retBits : Option (List String)) (doUncompute : Bool) (s : String) : Bool :=
+  !doUncompute || match retBits with
+    | none => true
+    | some rb => rb.contains s
+
 /-- the statement loop of `compile` -/
-def compileDefs : List (String × BExp) → M Unit
+def compileDefs (retBits : Option (List String)) (doUncompute : Bool) : List (String × BExp) → M Unit
   | [] => pure ()
   | (s, e) :: rest => do
-    let isTemp := s.startsWith "__"
     let iret ← compileExpr e none (some s)
+    expqRemoveSymbol s
     expqSet (.sym s) iret
-    mapQubit s iret (!isTemp)
-    let unc ← uncompute
-    expqRemove unc
-    compileDefs rest
+    mapQubit s iret true
+    if inlineUncompute retBits doUncompute s then
+      let unc ← uncompute
+      expqRemove unc
+    else
+      keepAncillas
+    compileDefs retBits doUncompute rest
 
 def addInputs : List String → M Unit
   | [] => pure ()
@@ -440,7 +549,7 @@ def compile (inputs : List String) (exprs : List (String × BExp)) (retBits : Op
     (doUncompute : Bool) : M Unit := do
   modify fun s => { s with inputs := inputs }
   addInputs inputs
-  compileDefs exprs
+  compileDefs retBits doUncompute exprs
   removeIdentities
   match retBits with
   | some rb =>
@@ -518,11 +627,12 @@ def wellFormed (gates : List AGate) (numQubits : Nat) : Bool :=
 /-- the name has the shape of an ancilla name `anc_<k>` created by `get_free_ancilla` -/
 def ancLike (x : String) : Bool := x.toList.take 4 == ['a', 'n', 'c', '_']
 
-/-- names the compiler itself binds to scratch qubits: temporaries `__x` (never promoted, their
-name is deleted when the qubit is promoted under another name) and ancilla names -/
-def scratchName (x : String) : Bool := x.startsWith "__" || ancLike x
+/-- names the compiler itself binds to scratch qubits: the ancilla names (such a name is deleted when
+its qubit is promoted under another name, and bound again when `get_free_ancilla` creates the next
+ancilla).  A temporary `__x` is a name like any other since every named qubit is promoted. -/
+def scratchName (x : String) : Bool := ancLike x
 
-/-- names the compiler binds on its own: constants, temporaries, ancillas -/
+/-- names the compiler binds on its own: constants, ancillas -/
 def reservedName (x : String) : Bool := x == "FALSE" || x == "TRUE" || scratchName x
 
 /-! ## The decidable class of the semantic fragment theorem (`QV.C02.C02_fragment_partial`) -/
